@@ -7,6 +7,7 @@
 From Coq Require Import List Arith QArith Permutation.
 Import ListNotations.
 From Yaqs Require Import Model.ChainFSM Proofs.ChainFSMP.
+From Yaqs Require Model.Transmon Proofs.TransmonP.
 From Yaqs Require Import Model.PauliFSM Proofs.PauliFSMP Model.CircuitLib Proofs.CircuitLibP Model.HamTerms Proofs.HamTermsP.
 
 Theorem C07_fsm_denotes_terms : forall L ts, (1 <= L)%nat -> (forall t, In t ts -> length (snd t) = L) -> denote (build L ts) = ts.
@@ -53,6 +54,14 @@ Theorem C07_chain_automaton_denotes_terms : forall (sym : Type) (I h : sym) (cha
   Permutation (ChainFSM.expand sym I h chans L) (ChainFSM.terms sym I h chans L).
 Proof. exact expand_is_terms. Qed.
 Print Assumptions C07_chain_automaton_denotes_terms.
+
+(* MPO.coupled_transmon (alternating qubit/resonator automaton, tensors decoded against Transmon.chain by the correspondence check):
+   BOUNDED statement — for every chain length from 1 to 12 the accepted paths spell exactly the documented terms (on-site terms of
+   qubits and resonators, g (b+b^+)(a+a^+) on every bond), as multisets; decided by evaluation, the bound is part of the statement *)
+Theorem C07_transmon_denotes_terms_upto_12 : forall L, (1 <= L)%nat -> (L <= 12)%nat ->
+  Transmon.same_terms (Transmon.expand L) (Transmon.terms L) = true.
+Proof. exact TransmonP.transmon_denotes_terms_upto_12. Qed.
+Print Assumptions C07_transmon_denotes_terms_upto_12.
 
 Example C07_example :
   let ts := [(1#2, [PZ;PZ;PI;PI]); (1#2, [PI;PZ;PZ;PI]); (1#2, [PI;PI;PZ;PZ]); (3#1, [PX;PI;PI;PI]); (3#1, [PI;PX;PI;PI]);
